@@ -34,6 +34,10 @@ def cells(tier):
     for size in [1, 2]:
         sc = scen(pool(size), [[A("A", 2)], [cancel(rid("A", 0))], [GAC], [UNTIL]], outcomes=["ret"], ecb="slow", ccb="slow", slow_ids=[0])
         out.append(cell(f"s{size} A2 cancel0 gac until slowcbs", sc, MON))
+        sc = scen(pool(2), [[A("A", size + 1)], [GAC], [UNTIL]], outcomes=["ret"], ecb="slow", slow_ids=[0, 1])
+        out.append(cell(f"s2 A{size + 1} gac until slowecb[0,1]", sc, MON))
+        sc = scen(pool(2), [[A("A", 2)], [cancel(rid("A", size - 1))], [GAC]], outcomes=["ret"], ecb="coro", ccb="slow", slow_ids=[0, 1])
+        out.append(cell(f"s2 A2 cancel{size - 1} gac slowccb[0,1]", sc, MON))
         sc = scen(pool(size), [[A("A", 2)], [M("M", 2, 1)], [CALL], [GAC]], outcomes=["ret", "exc"], ecb="plain", ccb="plain")
         out.append(cell(f"s{size} A2|M2/1 call gac", sc, MON))
         sc = scen(pool(size, "SimpleTaskPool", ecb="plain"), [[S("S", 3)], [GAC, S("Z", 1)], [UNTIL]], outcomes=["ret"])
